@@ -154,6 +154,12 @@ func Check(tier string) int {
 		ngen, budget = 900, 40*time.Minute
 	}
 	names := corpusNames(b)
+	if v := common.CasesOverride(0); v > 0 {
+		ngen = v
+		if len(names) > v {
+			names = names[:v]
+		}
+	}
 	total := len(names) + ngen
 	deadline := common.NewDeadline(budget)
 	scratch := filepath.Join(b.Root, "cases")
@@ -220,6 +226,17 @@ func Check(tier string) int {
 		for _, v := range r.out.Verdicts {
 			found = append(found, common.Found{Verdict: v, Index: i, Case: r.c, Trace: r.out.Log})
 		}
+	}
+	if os.Getenv("VERIF_LOG") != "" {
+		var lines []string
+		for i, r := range results {
+			if r.c == nil {
+				continue
+			}
+			lines = append(lines, fmt.Sprintf("== case %d kind=%s skipped=%q", i, r.c.Kind, r.out.Skipped))
+			lines = append(lines, r.out.Log...)
+		}
+		common.WriteRunLog(lines)
 	}
 	if usable == 0 {
 		writeEvidence(tier, seed, start, st, b, ran, usable, runs, skipped, samples, 0, "no usable workload")
